@@ -898,25 +898,48 @@ func nontrivial(t *rh.T) bool {
 
 type pairJS struct {
 	Attr  string   `json:"attr"`
-	A     *rh.Spec `json:"a"`
-	B     *rh.Spec `json:"b"`
+	A     *rh.Spec `json:"a,omitempty"`
+	B     *rh.Spec `json:"b,omitempty"`
 	HashA string   `json:"hash_a"`
 	HashB string   `json:"hash_b"`
+	// histories (history.go): one recipe, then either one list of steps or two lists of changes made by the build
+	Recipe *rh.Spec `json:"recipe,omitempty"`
+	Steps  []step   `json:"steps,omitempty"`
+	MutsA  []rh.Mut `json:"muts_a,omitempty"`
+	MutsB  []rh.Mut `json:"muts_b,omitempty"`
 }
 
 func main() {
 	lib.Main("C08", func(c *lib.Ctx) {
-		c.Model("From PlzV Require Import Model.C08 Model.C08_Tie.", "C08.case", "C08_Tie.check")
+		c.Model("From PlzV Require Import Model.C08 Model.C08_Cache Model.C08_CacheTie.", "C08_CacheTie.case", "C08_CacheTie.check")
 		c.Rule("tie: random recipes (every attribute present with probability 1/2 or 7/8, 0-3 entries per list/map drawn from 26 adversarial " +
 			"words: shared prefixes/suffixes, embedded '=', empty, \\x01/\\x02) performed on fresh core.BuildTarget values through the adders and public " +
 			"fields; real build.RuleHash(state,t,runtime,false) must equal sha1 of the stream the Go interpreter of the regenerated emit program " +
 			"writes for the stored state, and the Coq `ser prog` must equal that stream. oracle: pairs of recipes that differ in ONE attribute of C08's list, " +
 			"the edit biased towards boundary shifts, real hashes compared. distinct = distinct stored states; non-trivial = >= 2 non-empty list " +
-			"attributes and >= 1 non-empty map attribute")
+			"attributes and >= 1 non-empty map attribute. histories: ONE real target (3/4 with a post-build function or output_dirs) goes through " +
+			"2-8 steps - real build.RuleHash(rt, postBuild) calls and changes made through the adders a post-build function uses (add_out, named add_out, " +
+			"set_command, add_label, add_dep, add_entry_point, add_licence, optional out) - typically pre-build hash, changes, post-build hash, plus " +
+			"changes before the first hash, repeated and runtime calls; every returned value is located among sha1(interpreted stream of a stored state seen so far) " +
+			"and the Coq state machine (Model/C08_Cache.v, wrapper regenerated from RuleHash) must return the same stream; oracle: along histories the build can " +
+			"produce, a post-build / runtime call (and any call on a target the build cannot modify) returns the hash of the CURRENT attributes (recomputed " +
+			"with the memo cleared, and on a fresh object built from the current recipe); two copies of one target whose builds change the same attribute " +
+			"differently get different post-build hashes unless the pair falls in a listed unframed class")
 		prog := rh.LoadProg()
 
 		var replay pairJS
-		if c.ReadReplay(&replay) && replay.A != nil && replay.B != nil {
+		isReplay := c.ReadReplay(&replay)
+		if isReplay && replay.Recipe != nil {
+			c.Eval(replay, "replay", true)
+			if replay.Steps != nil {
+				_, evs, lv := runHistory(prog, replay.Recipe, replay.Steps)
+				checkHistory(c, replay.Recipe, replay.Steps, evs, lv)
+			} else {
+				checkPair(c, replay.Attr, replay.Recipe, replay.MutsA, replay.MutsB, false)
+			}
+			return
+		}
+		if isReplay && replay.A != nil && replay.B != nil {
 			ha, ta := rh.Hash(replay.A, false)
 			hb, tb := rh.Hash(replay.B, false)
 			c.Oracle()
@@ -950,7 +973,7 @@ func main() {
 				js["tie"] = "sha1(interpreted stream) != build.RuleHash"
 				stream = []byte("TIE BROKEN: sha1(interpreted stream) != build.RuleHash " + hex.EncodeToString(real))
 			}
-			c.Case(lib.App("CStream", lib.Bool(rt), t.Coq(), rh.Str(string(stream))), js, t.Coq()+fmt.Sprint(rt), nontrivial(t))
+			c.Case(lib.App("CRule", lib.App("CStream", lib.Bool(rt), t.Coq(), rh.Str(string(stream)))), js, t.Coq()+fmt.Sprint(rt), nontrivial(t))
 			c.HistN("stream_len/32", len(stream)/32)
 			c.Hist("runtime", fmt.Sprint(rt))
 		}
@@ -967,7 +990,7 @@ func main() {
 			ha, ta := rh.Hash(a, false)
 			hb, tb := rh.Hash(b, false)
 			c.Oracle()
-			js := pairJS{w.attr, a, b, hex.EncodeToString(ha), hex.EncodeToString(hb)}
+			js := pairJS{Attr: w.attr, A: a, B: b, HashA: hex.EncodeToString(ha), HashB: hex.EncodeToString(hb)}
 			c.Eval(js, "w"+w.what, true)
 			if ta.Coq() == tb.Coq() {
 				c.Note("witness %q: the two recipes give the same stored state", w.what)
@@ -1000,7 +1023,7 @@ func main() {
 				continue
 			}
 			c.Oracle()
-			js := pairJS{at.name, a, b, hex.EncodeToString(ha), hex.EncodeToString(hb)}
+			js := pairJS{Attr: at.name, A: a, B: b, HashA: hex.EncodeToString(ha), HashB: hex.EncodeToString(hb)}
 			c.Eval(js, ta.Coq()+"|"+tb.Coq(), nontrivial(ta) || nontrivial(tb))
 			c.Hist("pair_attr", at.name)
 			if bytes.Equal(ha, hb) {
@@ -1020,5 +1043,8 @@ func main() {
 		for _, k := range keys {
 			c.Note("oracle: %d colliding one-attribute pairs of class %s", collisions[k], k)
 		}
+
+		// ---- 4. histories on one target: RuleHash's memo against changes made by the build
+		histories(c, prog)
 	})
 }
